@@ -46,6 +46,8 @@ pub(super) struct AluKey {
     a: u32,
     b: u32,
     c: u32,
+    /// Accumulator of a `HornerAcc` step (`out = acc * b + c - a`); `None` for other kinds.
+    acc: Option<u32>,
 }
 
 impl AluKey {
@@ -57,20 +59,30 @@ impl AluKey {
                 a: a.0.min(b.0),
                 b: a.0.max(b.0),
                 c: 0,
+                acc: None,
             },
             AluOpKind::BoolCheck => Self {
                 kind,
                 a: a.0,
                 b: b.0,
                 c: 0,
+                acc: None,
             },
             AluOpKind::MulAdd | AluOpKind::HornerAcc => Self {
                 kind,
                 a: a.0,
                 b: b.0,
                 c: c.unwrap_or(WitnessId(0)).0,
+                acc: None,
             },
         }
+    }
+
+    /// Adds the accumulator operand of a `HornerAcc` step to the key: two steps with equal
+    /// `(a, b, c)` but different accumulators compute different values and must not be merged.
+    pub(super) fn with_acc(mut self, acc: Option<WitnessId>) -> Self {
+        self.acc = acc.map(|id| id.0);
+        self
     }
 }
 
